@@ -10,11 +10,13 @@ ROLES_PLAIN = [':ARG0', ':ARG1', ':ARG2', ':mod', ':domain', ':op1', ':op2', ':o
                # roles ending in -of that some tables define, literally or by a pattern
                ':x-of', ':u-of', ':w-of', ':y-z-of', ':prep-out-of', ':w', ':op1-x-of', ':prep-on-top-of', ':r0-z', ':r',
                # suffixes that only look like the inversion suffix (another letter case): ordinary roles
-               ':ARG0-OF', ':x-Of', ':mod-oF']
+               ':ARG0-OF', ':x-Of', ':mod-oF',
+               # '-of' (even '-of-of') inside a word is not an inversion
+               ':out-of-office', ':type-of-offer', ':part-of-speech']
 SYMS = ['-', '+', 'foo', 'bar', '7', '-1.5', '0', '0.0', '1e3', 'x', 'imperative', 'A',
         'b2', '\u03b5\u03c0', 'a.b', 'c,d', '^', "it's", '\u00a0', 'x\u2028y', '00', 'x\u3000y',
         '\u0085', 'p#q', 'mi\ufeffkh', 'z\u200bw', 'cafe\u0301', '\u212bngstr', '\u201cso\u201d', '\u201c1\u201d',
-        '\u2018x\u2019', '\u00abq\u00bb', 'None', 'null']
+        '\u2018x\u2019', '\u00abq\u00bb', 'None', 'null', ';', ';x', '--v', '%c', '!', '@x', '$1', '&', '*', '=', '<a>', '?', '[k]', '`t`', '{}', '|']
 STRS = ['"x"', '"a b"', '"(p)"', '"a~b"', '"q/:r"', '"\\"q\\""', '"#h"', '""', '"\\\\"',
         '"~1"', '"a\\nb"', '"\u00e9\u3000"', '"a ~e.1"', '"\u2028"', '"\tq\x0b"', '"a\ufeffb"', '"o\u031b\u0309 \u212a"', '"x::y z"', '"k ::id 7"']
 CONCEPTS = ['alpha', 'beta', 'bark-01', 'i', 'a', 'b', 'have-mod-91', '"str"', '7', 'A',
